@@ -132,6 +132,9 @@ def main():
                 for desc, what in edits(fn):
                     cands.append((modfile, cls.name if cls else None, fn.name, desc, what, sorted(props)))
     random.Random(seed).shuffle(cands)
+    if '--kind' in sys.argv:
+        k = sys.argv[sys.argv.index('--kind') + 1]
+        cands = [c for c in cands if c[4][0] == k]
     n = 0
     for modfile, cname, fname, desc, what, props in cands:
         if n >= mx:
